@@ -16,15 +16,16 @@ DIFF: the real snapshot after a block differs from `snapshotStep` on the real sn
 the model has no price for it (`available` false), or (base) is not served although the model has every price.
 MON `snapshot_only_from_active`: `stepOk` is false on the REAL before/after — an entry dropped or overwritten, a new entry that is
 not the current TWA of a found, active feed, or the status set in a block with an inactive found feed / a found feed without entry.
-MON `price_fail_closed`: a consumer was served (or changed the state) although one of the assets it needs has not had a found,
-active feed in ANY block since the shutdown — whatever price it used is stale. -/
+MON `price_fail_closed`: a consumer was served (or changed the state) although for one of the assets it needs the real snapshot
+holds no price that was the TWA of that asset's found, active feed in some block since the shutdown (no entry at all, or an entry
+with another value) — whatever price it used is stale. In particular: a needed feed that was off in EVERY block since the shutdown. -/
 -- DRIVER: prefix=esnap ns=Comdex.Drv.EsmSnapshot
 namespace Comdex.Drv.EsmSnapshot
 open Comdex.EsmSnapshot Comdex.Line
 
 structure St where
   real : Comdex.EsmSnapshot.St := {}   -- the real snapshot after the last block
-  everActive : List Nat := []          -- assets whose feed was found and active in some block since the shutdown
+  seen : List (Nat × Nat) := []        -- (asset, TWA) of every found, active feed in every block since the shutdown
   blocks : Nat := 0
 
 def init : St := {}
@@ -61,14 +62,17 @@ def handleBlock (st : St) (seq : String) (feeds : List Feed) (status : Bool) (en
   let d := if model.status == status && sameEntries model.entries entries then [] else
     [s!"DIFF\t{seq}\tsnapshot after the block: model status={model.status} entries={showEntries model.entries}\timpl status={status} entries={showEntries entries}"]
   let m := if stepOk feeds st.real after then [] else [s!"MON\t{seq}\tsnapshot_only_from_active"]
-  let act := (feeds.filter fun f => f.found && f.active).map (·.asset)
-  ({ real := after, everActive := (st.everActive ++ act).eraseDups, blocks := st.blocks + 1 }, d ++ m)
+  let act := (feeds.filter fun f => f.found && f.active).map fun f => (f.asset, f.twa)
+  ({ real := after, seen := (st.seen ++ act).eraseDups, blocks := st.blocks + 1 }, d ++ m)
 
 def handleUse (st : St) (seq consumer phase : String) (needs : List Nat) (base : Bool) (outcome : String) (changed : Bool) :
     List String :=
   let served := outcome == "ok" || changed
   let avail := available st.real needs
-  let staleNeeds := needs.filter fun a => !st.everActive.contains a
+  let staleNeeds := needs.filter fun a =>
+    match lookup st.real.entries a with
+    | some p => !st.seen.contains (a, p)
+    | none => true
   let d1 := if !avail && served then
     [s!"DIFF\t{seq}\t{consumer} {phase}: the snapshot model has no price for one of {needs}, impl={outcome} changed={changed}"] else []
   let d2 := if base && avail && outcome != "ok" then
